@@ -31,4 +31,28 @@ MUTANTS = [
         "if not set(objects).isdisjoint(properties):", "if objects[0] in properties or properties[0] in objects:")]},
     {'id': 'relations-swap-implication', 'expect': ['C16'], 'edits': [(JU,
         "            left, right = right, left\n", "            pass\n")]},
+    {'id': 'def-rename-residue', 'expect': ['C13'], 'edits': [(DF,
+        "{(new, p) for p in self._properties\n                  if (old, p) in pairs and not pairs.remove((old, p))}",
+        "{(new, p) for p in self._properties\n                  if (old, p) in pairs}")]},
+    {'id': 'def-remove-property-residue', 'expect': ['C13'], 'edits': [(DF,
+        "        self._pairs.difference_update((o, prop) for o in self._objects)",
+        "        self._pairs.difference_update((o, prop) for o in list(self._objects)[1:])")]},
+    {'id': 'def-setobject-set-order', 'expect': ['C13', 'C17'], 'edits': [(DF,
+        "        properties = tools.Unique(properties)\n", "        properties = set(properties)\n")]},
+    {'id': 'def-union-order', 'expect': ['C13'], 'edits': [(DF,
+        "        self._objects |= other._objects\n", "        self._objects = other._objects | self._objects\n")]},
+    {'id': 'unique-move-forward-only', 'expect': ['C13'], 'edits': [(TL,
+        "        if idx != new_index:", "        if idx < new_index or new_index == 0:")]},
+    {'id': 'def-intersection-keeps-cells', 'expect': ['C13'], 'edits': [(DF,
+        "        self._pairs &= other._pairs\n", "        self._pairs &= (other._pairs | {(o, p) for o, p in self._pairs if o not in other._objects})\n")]},
+    {'id': 'def-copy-shares-pairs', 'expect': ['C14'], 'edits': [(DF,
+        "        return self._fromargs(self._objects.copy(),\n                              self._properties.copy(),\n                              self._pairs.copy())",
+        "        return self._fromargs(self._objects.copy(),\n                              self._properties.copy(),\n                              self._pairs)")]},
+    {'id': 'unique-copy-shares-seen', 'expect': ['C14'], 'edits': [(TL,
+        "        return self._fromargs(self._seen.copy(), self._items[:])", "        return self._fromargs(self._seen, self._items[:])")]},
+    {'id': 'def-take-reorder-ignores-props', 'expect': ['C14'], 'edits': [(DF,
+        "            prop = tools.Unique(properties) if properties is not None else self._properties.copy()\n        else:",
+        "            prop = self._properties.copy()\n            if properties is not None:\n                prop &= properties\n        else:")]},
+    {'id': 'ctx-eq-ignores-properties-order', 'expect': ['C14'], 'edits': [(CX,
+        "                and self.properties == other.properties", "                and set(self.properties) == set(other.properties)")]},
 ]
